@@ -23,6 +23,9 @@
 //
 // A non-Empty rectangle whose positive size is absorbed (fl(X+Width) == X) has no representable point; the point-set
 // reading says nothing about it, such cases are skipped and counted (`absorbed`).
+// The far-edge effect is judged strictly only on the op words `fs64s` / `fs32s` (corpus lines of the known finding:
+// the operand's last representable point must be In the Union, the Intersect's last representable point In both
+// operands); generated cases of the class are counted (`union-short`, `intersect-long`), not failed.
 // Values travel as IEEE bit patterns (16 hex digits for float64, 8 for float32).
 package main
 
@@ -70,7 +73,7 @@ func absT[T fl](v T) T {
 	return v
 }
 
-func specCheck[T fl](o flOps[T], a, b geom.Rect[T], p geom.Point[T]) string {
+func specCheck[T fl](o flOps[T], strict bool, a, b geom.Rect[T], p geom.Point[T]) string {
 	var zero geom.Rect[T]
 	tags := map[string]bool{}
 	hasPoint := func(r geom.Rect[T]) bool { return !r.Empty() && r.X < r.Right() && r.Y < r.Bottom() }
@@ -159,6 +162,12 @@ func specCheck[T fl](o flOps[T], a, b geom.Rect[T], p geom.Point[T]) string {
 		if p.In(a) && p.In(b) && (p.X < i.X || p.Y < i.Y) {
 			return fail("p In both but left of / above Intersect = %v", i)
 		}
+		if i.Right() > min(a.Right(), b.Right()) || i.Bottom() > min(a.Bottom(), b.Bottom()) {
+			tags["intersect-long"] = true
+			if last := geom.NewPoint(o.pred(i.Right()), o.pred(i.Bottom())); strict && !(last.In(a) && last.In(b)) {
+				return fail("strict: the last representable point %v of Intersect = %v is not In both operands", last, i)
+			}
+		}
 	}
 	// ---- Union of two non-empty rectangles
 	if !a.Empty() && !b.Empty() {
@@ -174,6 +183,11 @@ func specCheck[T fl](o flOps[T], a, b geom.Rect[T], p geom.Point[T]) string {
 			}
 			if u.Right() < max(a.Right(), b.Right()) || u.Bottom() < max(a.Bottom(), b.Bottom()) {
 				tags["union-short"] = true
+				for _, r := range []geom.Rect[T]{a, b} {
+					if last := geom.NewPoint(o.pred(r.Right()), o.pred(r.Bottom())); strict && !last.In(u) {
+						return fail("strict: the last representable point %v of the operand %v is not In Union = %v", last, r, u)
+					}
+				}
 			}
 			for _, r := range []geom.Rect[T]{a, b} { // near extreme points are covered exactly
 				if r.X < u.X || r.Y < u.Y {
@@ -183,7 +197,7 @@ func specCheck[T fl](o flOps[T], a, b geom.Rect[T], p geom.Point[T]) string {
 		}
 	}
 	out := "ok"
-	for _, t := range []string{"far-rounded", "union-short"} {
+	for _, t := range []string{"far-rounded", "union-short", "intersect-long"} {
 		if tags[t] {
 			out += " " + t
 		}
@@ -202,7 +216,7 @@ func (fspecArea) Run(line string) string {
 		return "bad-op"
 	}
 	switch f[0] {
-	case "fs64":
+	case "fs64", "fs64s":
 		v := make([]float64, 10)
 		for i, w := range f[1:] {
 			u, err := strconv.ParseUint(w, 16, 64)
@@ -211,8 +225,8 @@ func (fspecArea) Run(line string) string {
 			}
 			v[i] = math.Float64frombits(u)
 		}
-		return specCheck(ops64, geom.NewRect(v[0], v[1], v[2], v[3]), geom.NewRect(v[4], v[5], v[6], v[7]), geom.NewPoint(v[8], v[9]))
-	case "fs32":
+		return specCheck(ops64, f[0] == "fs64s", geom.NewRect(v[0], v[1], v[2], v[3]), geom.NewRect(v[4], v[5], v[6], v[7]), geom.NewPoint(v[8], v[9]))
+	case "fs32", "fs32s":
 		v := make([]float32, 10)
 		for i, w := range f[1:] {
 			u, err := strconv.ParseUint(w, 16, 32)
@@ -221,7 +235,7 @@ func (fspecArea) Run(line string) string {
 			}
 			v[i] = math.Float32frombits(uint32(u))
 		}
-		return specCheck(ops32, geom.NewRect(v[0], v[1], v[2], v[3]), geom.NewRect(v[4], v[5], v[6], v[7]), geom.NewPoint(v[8], v[9]))
+		return specCheck(ops32, f[0] == "fs32s", geom.NewRect(v[0], v[1], v[2], v[3]), geom.NewRect(v[4], v[5], v[6], v[7]), geom.NewPoint(v[8], v[9]))
 	}
 	return "bad-op"
 }
